@@ -123,6 +123,11 @@ def one_alignment(start, end, eS, eE, kw, factor, seed, observe=True, reassign='
     tS, tE = table_of(pS0, eS), table_of(pE0, eE)
     nS, nE = len(start), len(end)
     nm0 = (names_of(start), names_of(end))
+    vel0 = [None if m_.atoms_velocities is None else m_.atoms_velocities.copy() for m_ in (start, end)]
+
+    def vel_same(m_, v0):
+        v1 = m_.atoms_velocities
+        return (v1 is None) == (v0 is None) and (v0 is None or bool(np.array_equal(v1, v0)))
     ev = []
     man = None
     if via_manager:
@@ -219,7 +224,9 @@ def one_alignment(start, end, eS, eE, kw, factor, seed, observe=True, reassign='
         ev.append({'op': 'WriteBack', 'who': 'both' if chS and chE else 'as' if chS else 'ae' if chE else 'none'})
     ev.append({'op': 'Final', 'lv': [level(pS0, start.atoms_positions, tS), level(pE0, end.atoms_positions, tE),
                                      level(pS0, fS, tS), level(pE0, fE, tE)],
-               'names': bool((names_of(start), names_of(end)) == nm0 and (names_of(ali.start), names_of(ali.end)) == nm0),
+               'names': bool((names_of(start), names_of(end)) == nm0 and (names_of(ali.start), names_of(ali.end)) == nm0
+                             and vel_same(start, vel0[0]) and vel_same(end, vel0[1])
+                             and (man is not None or vel_same(ali.start, vel0[0])) and vel_same(ali.end, vel0[1])),
                'finite': project.finite(fS) and project.finite(fE),
                'berr': [project.max_bond_error(fS, tS), project.max_bond_error(fE, tE)]})
     return ev, (fS.tobytes(), fE.tobytes())
@@ -243,6 +250,10 @@ def run_case(tid, seed, cfgcls, workdir, thorough):
         m = nS if nS < nE else nE
     degenerate = bool(rng.random() < 0.15) and tree and (types is None or 2 in types) and m >= 4
     start, end, eS, eE = build_pair(rng, workdir, nS, nE, tree, 't%d' % tid, degenerate)
+    if rng.random() < 0.4:
+        # molecules that carry velocities (the optional columns of a coordinate file): an alignment is about positions
+        start.atoms_velocities = rng.normal(size=(nS, 3))
+        end.atoms_velocities = rng.normal(size=(nE, 3))
     reassign = str(rng.choice(['', '', 's', 'e', 'se']))
     mob_edges = eS if nS < nE else eE
     tree = len(mob_edges) == m - 1
